@@ -10,7 +10,9 @@ correspond(res) =
         (truncated) jump law;
       * LevyTriplet.set_representation: random sequences are path-independent and reversible;
   (2) correspondence of the Coq model with the implementation by interval-arithmetic case lemmas on levy_exponent(-1j*s).real,
-      cumulantN(t), process_drift(), omega, and on sequences of set_representation.
+      cumulantN(t), process_drift(), omega, and on sequences of set_representation;
+      wave 6: the generated COMPLEX code (Gen.GenC10Cx) against both parts of levy_exponent(u) for real float u (HEM, VG) and
+      against levy_exponent(-1j*s) (`_cx_cases`).
 """
 import copy
 import json
@@ -26,22 +28,31 @@ from levycases import INF, rlit, tol_lit, Case
 
 PROP = "C10"
 PROPERTY_FILE = "Properties/C10.v"
-GEN_DEPS = ["GenC10Triplet", "GenC10Hem", "GenC10Merton", "GenC10Vg", "GenC10Cgmy", "GenC10Bs", "GenC10Exp", "GenC10Jump", "GenC09Hem", "GenC09Vg"]
+GEN_DEPS = ["GenC10Triplet", "GenC10Hem", "GenC10Merton", "GenC10Vg", "GenC10Cgmy", "GenC10Bs", "GenC10Exp", "GenC10Jump", "GenC10Cx", "GenC09Hem", "GenC09Vg"]
 RULE = ("oracle cases: (model, parameters, argument / order / route) for HEM, Merton, VG, CGMY (y<0, y=0, 0<y<1, y=1, 1<y<2) and "
         "Black-Scholes; arguments s inside the strip of the exponent and real u; cumulant orders 1,2,4(,6); routes cf / direct / ctmc; "
         "random sequences of 1-5 representation changes; non-trivial = non-zero argument / non-empty sequence; "
         "Coq cases: interval lemmas per (model, function): kappa, cumulants, drifts, omega, conversion sequences, jump_increment of HEM "
         "(chosen uniforms, both branches and u == p, v = 0 and v next to 1) and Merton (replayed stream), process_drift / deterministic_path "
         "of the non-exponential models, cached constants after __init__ and after setattr + initialisation(), the closed-form VG "
-        "Levy-Khintchine integral at the rebuilt model's constants")
+        "Levy-Khintchine integral at the rebuilt model's constants; wave 6: Re and Im of levy_exponent(u) at real float u (negative, zero, "
+        "positive) and of levy_exponent(-1j*s) for HEM and VG against the generated complex code levy_exponent_c / hem_pj_c / vg_pj_c")
 MODELLED = [
-    "LevyModel.levy_exponent only on the real axis u = -i s (kappa(s) = a s + sigma^2 s^2/2 + pj(s)); complex arguments are checked by "
-    "the oracle only",
+    "LevyModel.levy_exponent is regenerated over the complex-pair domain C = R * R (Gen.GenC10Cx.levy_exponent_c, plug-in "
+    "harness/py2coq_c10cx.py: float sub-expressions stay real, promotion with RtoC where Python promotes, 1j = Ci, z**2 = Cpow_nat, numpy's "
+    "complex log = Cln_code = (ln|z|, atan2) in Base/CxPair.v), with levy_exponent_pure_jump as a function argument; the complex pure-jump "
+    "exponents are regenerated for HEM and VG only (hem_pj_c, vg_pj_c). The hand model kappa(s) = a s + sigma^2 s^2/2 + pj(s) is PROVED equal to "
+    "the generated code at x = -1j*s for HEM and VG (C10_kappa_is_generated_exponent); for Merton / CGMY kappa stays a hand model tied by "
+    "cases, and their complex arguments are checked by the oracle only. Complex DIVISION is the field operation of C (CPython uses "
+    "Smith's algorithm: same value over the reals, different rounding); float rounding is outside the model (stated tolerance)",
     "LevyTriplet.set_representation (attribute mutation), omega, log_characteristic_function(t,-1j), deterministic_path, the "
     "Markov-chain drift: hand models in Model/LevyExponent.v tied by case lemmas / oracle",
     "scipy.special.gamma is an opaque function (Section variable Gamma); c*gamma(-y) enters the CGMY exponent as data",
     "H_rep (the pure-jump exponent IS the Levy-Khintchine integral of the density in the declared representation) is proved for HEM "
-    "(limits of finite integrals) and for Variance Gamma (Frullani, improper at 0 and at infinity: is_RInt_gen, no hypothesis); "
+    "(limits of finite integrals) and for Variance Gamma (Frullani, improper at 0 and at infinity: is_RInt_gen, no hypothesis) on the real "
+    "axis of the Laplace exponent, and for HEM ALSO at every real argument u of the characteristic exponent (C10_hem_char_exponent: Re = int "
+    "(cos(ux)-1) nu, Im = int sin(ux) nu over both half-lines, is_RInt_gen from / to the point 0); for VG at real u only the closed form of the "
+    "generated complex code is proved (_partial); "
     "for Merton (Gaussian integral) and CGMY (Gamma integrals) it is validated by the quadrature oracle only",
     "jump_increment of HEM / Merton is translated POINTWISE (one jump; the k-th generator call of the straight-line body is the k-th "
     "argument; plug-in harness/py2coq_c10.py); np.random.normal(loc, scale) is read as loc + scale * g, g standard normal (numpy's legacy "
@@ -59,7 +70,8 @@ ASSUMPTIONS = ["parameters in their declared domain; eta1 > 1 for the exponentia
                "direct route: np.random.random is uniform on [0,1), np.random.normal(loc, scale) = loc + scale * standard normal, draws independent; "
                "given that, HEM's jump_increment has law nu / intensity by C10_hem_jump_inverse_cdf; Merton: oracle `_jump_law`"]
 THEOREM_NOTES = {
-    "count": "26 statements (5 of them named _algebra): 6 conversions (4 positive under the guard valid_rep, the modelled ValueError, the need-for-the-guard witness), "
+    "count": "30 statements (5 of them named _algebra, 3 named _partial); wave 6 added C10_hem_char_exponent, C10_vg_char_exponent_closed_form_partial, C10_vg_char_exponent_re_partial, "
+             "C10_kappa_is_generated_exponent and the example C10_cx_nonvacuous; before: 6 conversions (4 positive under the guard valid_rep, the modelled ValueError, the need-for-the-guard witness), "
              "5 named _algebra (true by construction / conversion algebra / Merton mean rate), 3 direct-route identities on generated drifts, "
              "4 cumulant theorems (orders 1 and 2 only), C10_hem_exponent, C10_vg_exponent (Levy-Khintchine clause for two families), "
              "C10_levy_direct_mean_hem / _vg (non-exponential process_drift gives the mean rate cumulant1), C10_hem_jump_inverse_cdf, "
@@ -101,7 +113,26 @@ THEOREM_NOTES = {
         "oracle only (finding F-C10-5, KNOWN, 1e-5 .. 7e-2 per year on the default grids, growing as h decreases)",
     "moment strip": "exponential models outside the strip (E exp(L_1) infinite) are refused by the code (fixes a7ff60d, 5d1e949): oracle `_strip_oracle`; "
         "C10_vg_exponent holds on the open strip (-lambda_m, lambda_p) but no theorem states divergence outside it; CGMY: none",
-    "complex arguments of levy_exponent": "not modelled; oracle compares levy_exponent(u) at real u with the complex LK quadrature",
+    "C10_hem_char_exponent": "for all a, sigma, lam, p, 0 < eta1, 0 < eta2 and EVERY real u: the four improper integrals (is_RInt_gen, filters "
+        "Rbar_locally m_infty / at_point 0 and at_point 0 / Rbar_locally p_infty) of (cos(u x) - 1) hem_nu and sin(u x) hem_nu (declared ZERO, so "
+        "no compensator: lk_integrand_im ZERO true u x = sin(u x) - u*0) are the closed forms CL{n,p}_{re,im} (antiderivatives of e^{-eta x} cos / sin, "
+        "vanishing at infinity by a squeeze), the GENERATED complex code hem_pj_c at i u equals (CLn_re + CLp_re, CLn_im + CLp_im), and the generated "
+        "levy_exponent_c at the real argument u equals (-sigma^2 u^2/2 + Re, a u + Im); hem_nu is C09's generated density. Not covered: complex "
+        "u off the two axes; that the two-sided integral is the sum of the half-line ones is left implicit (hem_nu(0) = 0 in the code)",
+    "C10_vg_char_exponent_closed_form_partial": "PARTIAL: for 0 < nu the generated vg_pj_c at i u is (-ln|z|/nu, -atan(B/A)/nu), z = A + iB, "
+        "A = 1 + nu sigma^2 u^2/2 >= 1 (so numpy's atan2 is on its x > 0 branch), B = -theta nu u, and psi_c splits as for HEM; MISSING: that these are "
+        "the Levy-Khintchine integrals of (cos(ux)-1) vg_nu and sin(ux) vg_nu (complex Frullani: -c/2 ln(1+u^2/lp^2), c atan(u/lp), ...), "
+        "not attempted (needs differentiation under the integral or a complex-valued Frullani argument); validated by the quadrature oracle at real u",
+    "C10_vg_char_exponent_re_partial": "PARTIAL: for 0 < sigma, 0 < nu and every real u, with c, lm, lp the generated VGParameters constants: "
+        "A^2 + B^2 = (1 + u^2/lp^2)(1 + u^2/lm^2) (from lp lm = 2/(nu sigma^2), lm - lp = 2 theta/sigma^2) and Re vg_pj_c(i u) = -(c/2) ln(1 + u^2/lm^2) "
+        "- (c/2) ln(1 + u^2/lp^2); MISSING: is_RInt_gen of (cos(ux)-1) vg_nu over each half-line equals the respective term, and the imaginary part",
+    "C10_kappa_is_generated_exponent": "kappa a sigma pj s (hand model used by every real-axis theorem above) = the generated levy_exponent_c at "
+        "minus_i_times s = Cmult (Copp Ci) (RtoC s) (Python: -1j * s), as a complex number with zero imaginary part, for HEM (s off the poles "
+        "eta1, -eta2) and VG (nu <> 0 and positive argument of the logarithm, where numpy's complex log is the real one: Cmod = the value, atan2 = 0); "
+        "generic lemma kappa_is_levy_exponent_c for any pair (complex code, real code) that agree on the real axis; Merton / CGMY: their complex "
+        "pure-jump code is not regenerated (np.exp of a complex is in the layer, CGMY's np.power with complex base is not)",
+    "complex arguments of levy_exponent": "modelled for HEM and VG (generated over C = R * R) and tied by interval case lemmas on both parts at real float u "
+        "and at -1j*s; Merton / CGMY: oracle compares levy_exponent(u) at real u with the complex LK quadrature",
 }
 
 QUICK = dict(n_random=2, coq_per_group=4, seqs=40)
@@ -640,7 +671,8 @@ def _strip_oracle(res, rng):
 HEADER = L.HEADER_COMMON + """From Coq Require Import List.
 Import ListNotations.
 From RV Require Import Base.RB Gen.GenC10Triplet Gen.GenC10Hem Gen.GenC10Merton Gen.GenC10Vg Gen.GenC10Cgmy Gen.GenC10Bs Gen.GenC10Exp
-  Gen.GenC10Jump Model.LevyExponent Proofs.C10_Triplet Proofs.C10_Exponent Proofs.C10_VgLK.
+  Gen.GenC10Jump Model.LevyExponent Proofs.C10_Triplet Proofs.C10_Exponent Proofs.C10_VgLK
+  Base.CxPair Gen.GenC10Cx Model.LevyExponentCx Proofs.C10_HemCx Proofs.C10_VgCx Proofs.C10_CxAxis.
 """
 
 I80 = "interval with (i_prec 80)."
@@ -709,6 +741,59 @@ def _kappa_cases(res, rng, per_group):
                 cases.append(Case(("cumulant", kind, n), f"Rabs ({call} {rlit(t)} - {rlit(c)}) <= {tl2}", proof,
                                   dict(model=kind, params=params, n=n, t=t, impl=c)))
                 res.count(("coq-cum", kind, tuple(sorted(params.items())), n, t), kind=f"coq cumulant {kind}")
+    return cases
+
+
+CX_UNFOLD = ("cbv beta iota zeta delta [psi_c levy_exponent_c hem_pj_c minus_i_times Cre Cim Cpow_nat Cmult Cminus Cplus Cdiv Cinv Copp "
+             "RtoC Ci fst snd].")
+
+
+def _cx_cases(res, rng, per_group):
+    """wave 6: the generated COMPLEX code (Gen.GenC10Cx: levy_exponent_c, hem_pj_c, vg_pj_c) against model.levy_exponent(u) of the
+    implementation for a real float u (both parts of the complex value), and against levy_exponent(-1j*s) on the real axis of the
+    Laplace exponent (the generated code evaluated at minus_i_times s, independently of the hand model kappa)."""
+    cases = []
+    for kind in ("hem", "vg"):
+        gen = dict(hem=L.hem_params, vg=L.vg_params)[kind]
+        plist = [dict(p) for p in L.FIXED[kind]] + [gen(rng) for _ in range(per_group)]
+        for k, params in enumerate(plist):
+            model, _ = L.build(kind, params)
+            a0, sig = float(model._original_drift), float(model.levy_triplet.sigma)
+            if kind == "hem":
+                pjc = f"(hem_pj_c {_args(params, ('intensity', 'p', 'eta1', 'eta2'))})"
+            else:
+                pjc = f"(vg_pj_c {_args(params, ('sigma', 'nu', 'theta'))})"
+            # ---- real argument u: complex value
+            us = [round(rng.uniform(-15, 15), 2), rng.choice([-3.0, -0.5, 0.25, 1.0, 7.5])] + ([0.0] if k == 0 else [])
+            for u in us:
+                got = complex(model.levy_exponent(u))
+                tr, _ = tol_lit(got.real)
+                ti, _ = tol_lit(got.imag)
+                term = f"psi_c {rlit(a0)} {rlit(sig)} {pjc} {rlit(u)}"
+                stmt = f"Rabs (Cre ({term}) - {rlit(got.real)}) <= {tr} /\\ Rabs (Cim ({term}) - {rlit(got.imag)}) <= {ti}"
+                if kind == "hem":
+                    proof = f"{CX_UNFOLD} split; {I80}"
+                else:
+                    proof = f"rewrite psi_c_parts, vg_pj_c_parts by lra. unfold Cre, Cim, fst, snd, vg_A, vg_B. split; {I80}"
+                cases.append(Case(("psi-real-u", kind, u), stmt, proof,
+                                  dict(model=kind, params=params, u=u, impl=[got.real, got.imag])))
+                res.count(("coq-psi-u", kind, tuple(sorted(params.items())), u), nontrivial=u != 0, kind=f"coq levy_exponent(real u) {kind}")
+                res.bump("psi-real-u sign of u", "neg" if u < 0 else ("zero" if u == 0 else "pos"))
+            # ---- x = -1j * s inside the strip: the generated complex code on the real axis of the Laplace exponent
+            lo, hi = strip(kind, params)
+            s_ = round(rng.uniform(0.6 * lo, 0.6 * hi), 2)
+            got = complex(model.levy_exponent(-1j * s_))
+            tr, _ = tol_lit(got.real)
+            ti, _ = tol_lit(got.imag)
+            term = f"levy_exponent_c {rlit(a0)} {rlit(sig)} {pjc} (minus_i_times {rlit(s_)})"
+            stmt = f"Rabs (Cre ({term}) - {rlit(got.real)}) <= {tr} /\\ Rabs (Cim ({term}) - {rlit(got.imag)}) <= {ti}"
+            if kind == "hem":
+                proof = f"{CX_UNFOLD} split; {I80}"
+            else:
+                proof = ("rewrite kappa_is_generated_vg by (first [lra | unfold vg_logarg; " + I80[:-1] + "]). "
+                         f"unfold Cre, Cim, RtoC, fst, snd, kappa, vg_pj. split; {I80}")
+            cases.append(Case(("psi-minus-i-s", kind, s_), stmt, proof, dict(model=kind, params=params, s=s_, impl=[got.real, got.imag])))
+            res.count(("coq-psi-mis", kind, tuple(sorted(params.items())), s_), nontrivial=s_ != 0, kind=f"coq levy_exponent(-1j*s) complex code {kind}")
     return cases
 
 
@@ -964,7 +1049,7 @@ def _conversion_cases(res, rng, per_group):
 
 def _coq(res, rng):
     cfg = _cfg(res)
-    cases = _kappa_cases(res, rng, cfg["coq_per_group"]) + _drift_cases(res, rng, cfg["coq_per_group"]) + \
+    cases = _kappa_cases(res, rng, cfg["coq_per_group"]) + _cx_cases(res, rng, cfg["coq_per_group"]) + _drift_cases(res, rng, cfg["coq_per_group"]) + \
         _conversion_cases(res, rng, cfg["coq_per_group"]) + _sampler_cases(res, rng, min(10, max(2, cfg["coq_per_group"] // 2))) + \
         _constants_cases(res, rng, min(10, max(2, cfg["coq_per_group"] // 2)))
     nfiles, failed = L.run_cases(PROP, "cases", HEADER, cases, jobs=12, timeout=600)
@@ -1037,7 +1122,7 @@ def replay(path):
     return 1
 
 
-LEVEL_TEXT = ("Proof (partial): 26 Coq statements (5 of them plain algebra, named _algebra). The four drift conversions of LevyTriplet are re-translated from levymodel.py on every run and "
+LEVEL_TEXT = ("Proof (partial): 30 Coq statements (5 of them plain algebra, named _algebra). The four drift conversions of LevyTriplet are re-translated from levymodel.py on every run and "
               "set_representation is proved path-independent and reversible for all triplets, measures and sequences of representations admissible "
               "for the measure (ZERO needs finite variation; the code raises otherwise). "
               "On the real axis (kappa(s) = psi(-i s)) the generated pure-jump exponents, cumulants and simulation drifts of HEM, Merton, VG, "
@@ -1052,8 +1137,15 @@ LEVEL_TEXT = ("Proof (partial): 26 Coq statements (5 of them plain algebra, name
               "the generated density is cumulant1 for HEM and VG (Merton: algebra); HEM's jump_increment (regenerated pointwise) is proved to be the "
               "inverse-cdf sampler of the normalised generated density; the constants re-derived by Parameters.initialisation() (regenerated) carry "
               "the HEM direct-route identity and the VG Levy-Khintchine clause. For Merton and CGMY the exponent-versus-"
-              "density clause, and for all models higher cumulants and complex arguments, are validated only by the mpmath quadrature / Cauchy-integral oracle.")
-LEVEL_NOTE = ("Trusted: Coq kernel, standard real/classical axioms, py2coq (fail-closed), the hand model of levy_exponent on the real axis "
-              "(complex arithmetic not modelled) tied by interval case lemmas on levy_exponent(-1j*s).real, Gamma as an opaque function.")
+              "density clause, and for all models higher cumulants, are validated only by the mpmath quadrature / Cauchy-integral oracle. "
+              "Wave 6: LevyModel.levy_exponent and the HEM / VG pure-jump exponents are regenerated over complex pairs (C = R * R); for HEM the characteristic "
+              "exponent at every REAL argument u is proved to be the Levy-Khintchine integral (real part: cos(ux)-1, imaginary part: sin(ux), both half-lines, "
+              "improper integrals) of the generated density plus -sigma^2 u^2/2 + i a u; the real-axis model kappa is proved to be the generated complex code "
+              "at -1j*s for HEM and VG; for VG at real u only the closed form (ln|z|, atan) of the generated code and its real part in the constants of the Levy density are proved (partial); Merton / CGMY at complex "
+              "arguments: oracle only.")
+LEVEL_NOTE = ("Trusted: Coq kernel, standard real/classical axioms, py2coq and its complex-pair plug-in py2coq_c10cx (fail-closed; typing float / complex "
+              "as Python's numeric tower), Base/CxPair.v's reading of numpy's complex log / integer power, the hand model kappa of levy_exponent on the real "
+              "axis for Merton / CGMY (HEM / VG: proved equal to the generated complex code), interval case lemmas on levy_exponent(-1j*s) and "
+              "levy_exponent(u), Gamma as an opaque function.")
 TECHNIQUE = ("Coq proof over R (field algebra, Coquelicot is_derive / auto_derive / is_RInt_gen improper integrals) on py2coq-generated drifts, exponents, "
-             "cumulants, densities, jump samplers and cached constants + Interval case lemmas")
+             "cumulants, densities, jump samplers and cached constants, and over C = R * R (Coquelicot Complex) on the generated complex exponent code + Interval case lemmas")
